@@ -206,7 +206,12 @@ func main() {
 		for hi, h := range j.Histories {
 			var rs []rt.Result
 			var ctx interface{}
+			// the caller keeps every returned value (a pointer) until the history is over
+			var held []func() (int, string)
+			var heldAt []int
 			for k, in := range h {
+				kk := k
+				rt.Hold = func(read func() (int, string)) { held, heldAt = append(held, read), append(heldAt, kk) }
 				run := rt.Begin(fuel)
 				begin(len(j.Inputs)+hi, in)
 				var res rt.Result
@@ -226,6 +231,14 @@ func main() {
 				end()
 				rt.Cur = nil
 				rs = append(rs, res)
+			}
+			rt.Hold = nil
+			for i, read := range held {
+				if k := heldAt[i]; k < len(rs) && rs[k].Class == "accept" {
+					if n, s := read(); n != rs[k].N || s != rs[k].S {
+						rs[k].Later = fmt.Sprint(n) + "/" + s
+					}
+				}
 			}
 			enc.Encode(Out{Pkg: j.Pkg, Kind: "history", History: h, Results: rs, Job: jobNo})
 		}
